@@ -105,8 +105,17 @@ fn check(ctx: &Ctx, c: &Case) -> PResult {
     if comp == 8 && c.satisfy {
         vals[3] = F::from((c.seed % 2) as u64);
     }
+    // assert_equal(handle, handle - 1): the last own witness against the one
+    // before it, the first own witness against ONE, ONE against ZERO, or the
+    // second own witness against the first
+    let eq_h: usize = [5usize, 2, 5, 3, 2, 1][(c.wiring[0] as usize + c.wiring[1] as usize) % 6];
     if comp == 4 && c.satisfy {
-        vals[2] = vals[3];
+        match eq_h {
+            5 => vals[2] = vals[3],
+            3 => vals[1] = vals[0],
+            2 => vals[0] = F::one(),
+            _ => {}
+        }
     }
     let q: Vec<F> = c.q.iter().map(|x| x.0).collect();
     let (a, b, cc, d) = (hv(h[0], &vals), hv(h[1], &vals), hv(h[2], &vals), hv(h[3], &vals));
@@ -141,7 +150,7 @@ fn check(ctx: &Ctx, c: &Case) -> PResult {
         3 => Op::GateMul { qm: Fe(q[0]), qf: Fe(q[4]), qc: Fe(q[5]), w: [w16(0), w16(1), w16(3)], pi: c.pi.clone() },
         // non-solve assert_equal compares the handle with the previous one:
         // last own witness (handle 5) against handle 4
-        4 => Op::AssertEq(pick_for(5, total)),
+        4 => Op::AssertEq(pick_for(eq_h, total)),
         5 => Op::AssertEqConst(pick_for(5, total), c.pi.clone()),
         6 => Op::Const(Fe(vals[0])),
         7 => Op::Public(Fe(vals[0])),
@@ -207,7 +216,7 @@ fn check(ctx: &Ctx, c: &Case) -> PResult {
             }
             2 => q[1] * a + q[2] * b + q[4] * d + q[5] + piv - ret == F::zero(),
             3 => q[0] * a * b + q[4] * d + q[5] + piv - ret == F::zero(),
-            4 => vals[3] == vals[2],
+            4 => hv(eq_h, vals) == hv(eq_h - 1, vals),
             5 => vals[3] == F::from(7u64) + piv,
             6 => ret == vals[0],
             7 => ret == vals[0],
@@ -326,5 +335,5 @@ pub fn props() -> Vec<(Box<dyn PropDyn>, u32, u32)> {
 }
 
 pub fn describe(ctx: &Ctx) {
-    ctx.rule("cases: component in {append_gate, append_evaluated_output, gate_add, gate_mul, assert_equal, assert_equal_constant, append_constant, append_public, component_boolean, component_select, component_select_one, component_select_zero} x coefficient tuples over {0, +-1, +-2, random} (q_o zero and invertible) x wirings (distinct, ZERO/ONE, all wires shared) x with/without (zero/non-zero) public input x witness values with boundary classes; constant term either solving the relation or arbitrary; then one touched witness (input or returned) set to another value on the unchanged layout; and the returned witness forced to another value with every internal wire re-solved row by row (propagation adversary). Oracle: the documented relation evaluated in the harness <=> reference-evaluator satisfiability; returned witnesses equal the documented value and cannot be changed alone. non-trivial = every case; distinct by case");
+    ctx.rule("cases: component in {append_gate, append_evaluated_output, gate_add, gate_mul, assert_equal, assert_equal_constant, append_constant, append_public, component_boolean, component_select, component_select_one, component_select_zero} x coefficient tuples over {0, +-1, +-2, random} (q_o zero and invertible) x wirings (distinct, ZERO/ONE, all wires shared; assert_equal also against the built-in ONE and ZERO witnesses) x with/without (zero/non-zero) public input x witness values with boundary classes; constant term either solving the relation or arbitrary; then one touched witness (input or returned) set to another value on the unchanged layout; and the returned witness forced to another value with every internal wire re-solved row by row (propagation adversary). Oracle: the documented relation evaluated in the harness <=> reference-evaluator satisfiability; returned witnesses equal the documented value and cannot be changed alone. non-trivial = every case; distinct by case");
 }
